@@ -258,6 +258,12 @@ class Interp:
         for name, g in self.prog.fns.items():
             if g.kind != 'fn' and (name.endswith('::' + base) or base.endswith('::' + name)):
                 return self.eval_const_item(name)
+        sn = base.split('::')[-1]
+        st_ = self.prog.si.structs.get(sn) if hasattr(self.prog, 'si') else None
+        if st_ and any(not flds for _f, flds in st_): return Agg(norm_ty_name(path)[1], [])      # unit struct value
+        sc = std_assoc_const(path)
+        if sc is None and base.split('::')[-1] == 'RangeFull': sc = Agg('RangeFull', [])
+        if sc is not None: return sc
         return FnRef(substitute_text(path, substs), dict(substs))
 
     def eval_const_item(self, name):
@@ -313,6 +319,7 @@ class Interp:
         if isinstance(v, Agg): return v.f, 0, len(v.f)
         if isinstance(v, SliceRef): return v.c, v.lo, v.hi
         if isinstance(v, RVec): return v.items, 0, len(v.items)
+        if isinstance(v, RBox): return self.seq_items(v.cell[0])
         raise Unsupported('sequence of %r' % (v,))
 
     def index_into(self, v, i):
@@ -466,6 +473,17 @@ class Interp:
                         return SliceRef(t.f, 0, len(t.f))
                 if isinstance(v, RBox) and isinstance(v.cell[0], Agg) and v.cell[0].ty == 'array' and 'Box<[' in ty:
                     return RBox(RVec(v.cell[0].f))      # Box<[T]> modelled as boxed vec
+                if isinstance(v, RBox) and 'dyn ' in ty and v.cell[0] is UNINIT:
+                    st = self.op_ty(fr, op)
+                    if st:
+                        t_ = parse_ty(substitute_text(st, fr.substs))
+                        if t_[0] == 'path' and t_[3]: v.cell[0] = self.zst_value(show_ty(t_[3][0]), fr.substs)
+                if isinstance(v, Ref) and not isinstance(v, DynRef) and 'dyn ' in ty:
+                    st = self.op_ty(fr, op)
+                    if st:
+                        st = strip_lifetimes(substitute_text(st, fr.substs)).strip()
+                        st = re.sub(r'^&(mut )?', '', st).strip()
+                        return DynRef(v.c, v.k, st)
             return v
         src_ty = self.op_ty(fr, op)
         if kind == 'IntToInt':
@@ -610,7 +628,7 @@ class Interp:
     # ---- calling things
     def call_value(self, fv, args):
         """call a fn pointer / fn item / closure value with already-evaluated args (not tupled)"""
-        if isinstance(fv, Ref): fv = fv.get()
+        while isinstance(fv, (Ref, RBox)): fv = fv.get() if isinstance(fv, Ref) else fv.cell[0]
         if isinstance(fv, FnRef):
             return self.call_named(fv.name, args, [None] * len(args), None)
         if isinstance(fv, Agg) and fv.ty.startswith('{closure@'):
@@ -651,6 +669,26 @@ class Interp:
         if kind == 'model':
             return target[1](self, args, target[2])
         raise Unsupported('cannot resolve call: ' + text[:200])
+
+def std_assoc_const(path):
+    """`core::num::<impl usize>::MAX`, `core::f64::<impl f64>::NAN`, `std::f64::consts::PI`, `char::MAX` ..."""
+    m = re.search(r'(?:<impl (\w+)>|\b(\w+))::(\w+)$', path)
+    if not m: return None
+    ty = m.group(1) or m.group(2); name = m.group(3)
+    if ty in INT_TYS:
+        bits, signed = INT_TYS[ty]
+        return {'MAX': (1 << (bits - (1 if signed else 0))) - 1, 'MIN': -(1 << (bits - 1)) if signed else 0, 'BITS': bits}.get(name)
+    if ty in ('f64', 'f32'):
+        import sys as _s
+        f32 = ty == 'f32'
+        tab = {'NAN': float('nan'), 'INFINITY': float('inf'), 'NEG_INFINITY': float('-inf'), 'MAX': 3.4028234663852886e38 if f32 else _s.float_info.max,
+               'MIN': -3.4028234663852886e38 if f32 else -_s.float_info.max, 'MIN_POSITIVE': 1.1754943508222875e-38 if f32 else _s.float_info.min,
+               'EPSILON': 1.1920928955078125e-07 if f32 else _s.float_info.epsilon}
+        return tab.get(name)
+    if ty == 'char': return {'MAX': 0x10FFFF, 'REPLACEMENT_CHARACTER': 0xFFFD, 'MIN': 0}.get(name)
+    if ty == 'consts' and 'f64' in path or ty == 'consts' and 'f32' in path:
+        return {'PI': math.pi, 'E': math.e, 'TAU': math.tau, 'SQRT_2': math.sqrt(2), 'LN_2': math.log(2), 'LN_10': math.log(10), 'FRAC_PI_2': math.pi / 2}.get(name)
+    return None
 
 # ------------------------------------------------------------------------------- arithmetic
 
